@@ -100,7 +100,7 @@ struct Session {
     std::map<long, Ent> second;              // a second handle of every entity created in the session (looked up through its parent
                                              // right after the creation): calls alternate between the two handles of an entity
     unsigned long tick = 0;
-    unsigned long closes = 0; bool twoFiles = false;
+    unsigned long closes = 0; bool twoFiles = false; bool lookBeforeClose = true;
     std::map<std::string, long> eidOfId;     // UUID -> model eid (bound at creation, survives reopen)
     std::map<long, std::string> idOf;
     std::map<long, long> createdAt;
@@ -924,7 +924,8 @@ std::vector<Ent> collectMany(Session &s) {
 void closeSession(Session &s) {
     std::vector<Aux> aux;
     std::vector<Ent> many;
-    if (s.open) { json pre = observe(s); for (auto &x : pre["issues"]) { std::string m = x.get<std::string>(); if (m.rfind("before close: ", 0) != 0 && s.carried.size() < 10) s.carried.push_back("before close: " + m); }
+    // (on the lines that run unobserved - see touchThisLine - the session is closed without looking at it first)
+    if (s.open && s.lookBeforeClose) { json pre = observe(s); for (auto &x : pre["issues"]) { std::string m = x.get<std::string>(); if (m.rfind("before close: ", 0) != 0 && s.carried.size() < 10) s.carried.push_back("before close: " + m); }
                   if (!getenv("VERIF_NO_AUX")) aux = collectAux(s); if (!getenv("VERIF_NO_MANY") && s.K == 0 && s.fresh.size() <= 8) many = collectMany(s); }     // (not on lines with ballast: see DESIGN section 8, "many handles + ballast")
     // on every third line (by content hash): a SECOND File object on the same path is open in the process while
     // the session's File is closed; it is closed right afterwards (or right before).  Once both have returned from close() the file
@@ -1105,6 +1106,7 @@ json handleInner(Ctx &c, const json &rec) {
     // side effect can make a fault heal under observation, so half of the histories run unobserved until the judged step
     bool touchThisLine;
     { std::string key = rec["pre"].dump() + rec["step"].dump(); unsigned long h = 1469598103934665603UL; for (unsigned char ch : key) { h ^= ch; h *= 1099511628211UL; } touchThisLine = (h / 6) % 2 == 0; }
+    s.lookBeforeClose = touchThisLine || !c.opts.value("touch_retained", false);
     { std::string key = rec["pre"].dump() + rec["step"].dump(); unsigned long h = 1469598103934665603UL; for (unsigned char ch : key) { h ^= ch; h *= 1099511628211UL; }
       s.twoFiles = c.opts.value("two_files", false) && (h / 12) % 3 == 0; }
     Ent fileEnt; fileEnt.kind = "file";
